@@ -18,6 +18,7 @@ def run(tree, rep, tier):
     P6_conservation(rep, flow, [FQ], tables=T)
     T5_T6_cost_depth(rep, T, T.adv_stab)
     B5_label_order(rep, flow, [FQ])
+    rep.rules["B5"]["floor"] = 0      # a sign repair that exports no string list has nothing to get wrong here (self-test m122 keeps the rule alive)
     A9_circuit_truthiness(rep, flow, [FQ])
     rep.rules["P1"]["floor"] = 3
     rep.trusted += ["Q1", "Q2", "Q3", "Q4"]
